@@ -2456,6 +2456,9 @@ class CallMixin(object):
             res_z = res_v
         elif c.result is not None and c.result.kind == 'Any' and getattr(c, 'result_variants', None):
             variants = list(c.result_variants)     # a result of one of several classes: one continuation per class (the postcondition says which one it is when)
+        elif c.result is not None and c.result.kind == 'Doc':
+            res_z = fresh(Doc, 'res_' + fi.qualname.split('.')[-1])       # a fresh file-like object (in-out): its content so far is what the postcondition says
+            res_v = st.new_cell(DocObj(res_z))
         elif c.result is not None and c.result.kind != 'None':
             res_z = fresh(c.result.sort(), 'res_' + fi.qualname.split('.')[-1])
             res_v = wrap(c.result, res_z)
@@ -2709,6 +2712,7 @@ class Executor(Exec, ExprMixin, StmtMixin, CallMixin):
         k = ty.kind
         if k == 'Any' and nm == 'cls' and self.fi.cls and any(isinstance(d_, ast.Name) and d_.id == 'classmethod' for d_ in self.fi.node.decorator_list):
             return ClassV(self.module, self.fi.cls)      # the class a classmethod is defined in (subclasses that override what it calls are outside the handled subset)
+        if k == 'Any': return Builtin('<opaque %s>' % nm)          # a value the contract says nothing about: may only be passed on
         if k == 'Doc': return st.new_cell(DocObj(z3.Const(nm + '0', Doc)))
         if k == 'MList':
             return st.new_cell(SeqV(z3.Const(nm, z3.SeqSort(ty.args[0].sort())), ty.args[0]))
